@@ -28,7 +28,7 @@ func genSetter(rng *hk.Rand, g *genState, client bool) setter {
 		return out
 	}
 	for {
-		switch k := rng.Intn(132); {
+		switch k := rng.Intn(138); {
 		case k < 10: // cookies
 			return setter{K: "append", F: 0, Vs: vs(3)}
 		case k < 16:
@@ -147,6 +147,13 @@ func genSetter(rng *hk.Rand, g *genState, client bool) setter {
 			if client {
 				return setter{K: "dumpdisable"}
 			}
+		case k >= 132:
+			if client {
+				if k < 136 {
+					return setter{K: "maptouch", F: rng.Range(1, 3)}
+				}
+				return setter{K: "jarnil"}
+			}
 		default:
 			if client {
 				l := []int{rng.Range(1, nSinks+1), rng.Intn(2), rng.Intn(2), rng.Intn(2), rng.Intn(2), 0}
@@ -207,8 +214,18 @@ func genProgram(rng *hk.Rand, n int) []op {
 // the shape in which shared backing storage shows: one appendable thing of client 0 grown ONE ELEMENT AT A
 // TIME (len 3 has cap 4, len 5 has cap 8), Clone, then one more element on both sides in either order
 func genAliasPattern(rng *hk.Rand, g *genState) []op {
-	fam := rng.Intn(10)
-	key := rng.Range(1, 4)
+	fam := rng.Intn(12)
+	key := rng.Range(1, 3)
+	if fam >= 10 { // an empty but allocated map at Clone time, then entries on both sides
+		f := rng.Range(1, 3)
+		one := func() setter { return setter{K: "mapset", F: f, Key: key, Val: rng.Range(1, 9)} }
+		g.clients = append(g.clients, 1)
+		a, b := 0, 1
+		if rng.Chance(50) {
+			a, b = 1, 0
+		}
+		return []op{cset(0, setter{K: "maptouch", F: f}), {K: "clone", Src: 0, Dst: 1}, cset(a, one()), cset(b, one())}
+	}
 	one := func() setter {
 		v := rng.Range(1, 9)
 		switch fam {
@@ -503,6 +520,10 @@ func scenarios() [][]op {
 		{nc, cset(0, setter{K: "mapadd", F: 2, Key: 2, Val: 1}), cset(0, setter{K: "mapadd", F: 2, Key: 2, Val: 2}), cset(0, setter{K: "mapadd", F: 2, Key: 2, Val: 3}), cl(0, 1), cset(1, setter{K: "mapadd", F: 2, Key: 2, Val: 5}), cset(0, setter{K: "mapadd", F: 2, Key: 2, Val: 4}), cl(1, 2)},
 		// request-level header override: a blank value and a non-canonical key still win over the client's
 		{nc, cset(0, setter{K: "mapset", F: 0, Key: 1, Val: 1}), cset(0, setter{K: "mapadd", F: 0, Key: 5, Val: 2}), cset(0, setter{K: "mapset", F: 1, Key: 1, Val: 3}), op{K: "newreq", C: 0, R: 0}, rset(0, setter{K: "mapset", F: 0, Key: 1, Val: 0}), rset(0, setter{K: "mapadd", F: 0, Key: 5, Val: 4}), rset(0, setter{K: "mapset", F: 1, Key: 1, Val: 0}), op{K: "exec", R: 0}, op{K: "newreq", C: 0, R: 1}, rset(1, setter{K: "mapadd", F: 0, Key: 5, Val: 0}), op{K: "exec", R: 1}},
+		// empty but allocated maps at Clone time (SetCommonPathParams(map[string]string{}) ...), then entries on either side
+		{nc, cset(0, setter{K: "maptouch", F: 3}), cset(0, setter{K: "maptouch", F: 1}), cset(0, setter{K: "maptouch", F: 2}), cl(0, 1), cset(1, setter{K: "mapset", F: 3, Key: 1, Val: 5}), cset(0, setter{K: "mapset", F: 1, Key: 1, Val: 4}), cset(1, setter{K: "mapset", F: 2, Key: 2, Val: 6}), cl(1, 2), cset(0, setter{K: "mapset", F: 3, Key: 2, Val: 7})},
+		// cookies switched off (SetCookieJar(nil)): Clone and ClearCookies must not switch them on again
+		{nc, cset(0, setter{K: "jarstore", Val: 1}), cset(0, setter{K: "jarnil"}), cl(0, 1), cset(1, setter{K: "jarstore", Val: 2}), cset(0, setter{K: "clearcookies"}), cset(0, setter{K: "jarstore", Val: 3}), cset(1, setter{K: "jarfactory"}), cset(1, setter{K: "jarstore", Val: 4}), cl(1, 2), cset(1, setter{K: "jarnil"}), cset(1, setter{K: "clearcookies"}), cset(1, setter{K: "jarstore", Val: 5})},
 		// cookie jars: factory (own jar per clone) and the documented shared plain jar
 		{nc, cset(0, setter{K: "jarstore", Val: 1}), cl(0, 1), cset(1, setter{K: "jarstore", Val: 2}), cset(0, setter{K: "jarstore", Val: 3}), cset(0, setter{K: "jarplain"}), cl(0, 2), cset(2, setter{K: "jarstore", Val: 4}), cset(0, setter{K: "clearcookies"}), cset(1, setter{K: "clearcookies"})},
 	}
